@@ -1090,56 +1090,84 @@ def gen_seq(rng):
 
 # ------------------------------------------------------------------------------------------- explicit shapes
 def gen_shape(rng):
-    """kernels (module procedures) with assumed-shape dummies; the driver passes whole arrays (and full-column sections) whose
-    declared shapes use its integer dummies n, m (intent(in)), literals, or n+1"""
+    """kernels (module procedures) with assumed-shape dummies; the driver passes whole arrays and SECTIONS of higher-rank arrays (the scalar
+    subscripts in every position: f(j,:,:), f(:,j,:), f(:,:,j), f(:,j,k), f(j,:,k), f(j,k,:), b(:,j), b(j,:)) whose declared shapes use its
+    integer dummies n, m, l (intent(in), pairwise different values), literals, or n+1"""
     g = Gen(rng)
-    n0, m0 = rng.randint(3, 4), rng.randint(3, 4)
-    shapes = {'a': [V('n')], 'd': [V('n')], 'b': [V('n'), V('m')], 'e': [V('n'), V('m')], 'c': [I(4)], 'h': [ADD(V('n'), I(1))]}
-    vals = {'a': [n0], 'd': [n0], 'b': [n0, m0], 'e': [n0, m0], 'c': [4], 'h': [n0 + 1]}
-    dummies_d = ['a', 'b'] + (['h'] if rng.random() < 0.4 else [])
+    n0, m0, l0 = rng.sample([3, 4, 5], 3)
+    sval = {'n': n0, 'm': m0, 'l': l0}
+    shapes = {'a': [V('n')], 'd': [V('n')], 'b': [V('n'), V('m')], 'e': [V('n'), V('m')], 'c': [I(4)], 'h': [ADD(V('n'), I(1))],
+              'f': [V('n'), V('m'), V('l')]}
+    vals = {'a': [n0], 'd': [n0], 'b': [n0, m0], 'e': [n0, m0], 'c': [4], 'h': [n0 + 1], 'f': [n0, m0, l0]}
+    dummies_d = ['a', 'b', 'f'] + (['h'] if rng.random() < 0.3 else [])
     locals_d = ['d', 'e', 'c']
     def dims_of(x): return [['e', I(1), s] for s in shapes[x]]
-    dvars = [['n', 'scal', None, 'in'], ['m', 'scal', None, 'in'], ['r', 'scal', None, 'inout']]
+    dvars = [['n', 'scal', None, 'in'], ['m', 'scal', None, 'in'], ['l', 'scal', None, 'in'], ['r', 'scal', None, 'inout']]
     dvars += [[x, 'arr', dims_of(x), 'inout'] for x in dummies_d] + [[x, 'arr', dims_of(x), None] for x in locals_d]
-    dvars += [['i', 'scal', None, None], ['j', 'scal', None, None]]
-    classes = {'n': ['a', 'd'], 'nm': ['b', 'e'], '4': ['c'], 'n1': ['h'] if 'h' in dummies_d else []}
+    dvars += [['i', 'scal', None, None], ['j', 'scal', None, None], ['jc', 'scal', None, None]]
+    FULL = ['call', ':']
+    def sub():
+        """a scalar subscript with a value in 1..NB"""
+        c = rng.random()
+        if c < 0.6: return I(rng.randint(1, NB))
+        if c < 0.85: return V('jc')
+        return ADD(V('jc'), I(1))
+    # shape class (the sizes the assumed-shape dummy must get) -> makers of actuals
+    classes = {
+        ('n',): [lambda: V('a'), lambda: V('d'), lambda: EL(rng.choice(['b', 'e']), FULL, sub()), lambda: EL('f', FULL, sub(), sub())],
+        ('m',): [lambda: EL(rng.choice(['b', 'e']), sub(), FULL), lambda: EL('f', sub(), FULL, sub())],
+        ('l',): [lambda: EL('f', sub(), sub(), FULL)],
+        ('n', 'm'): [lambda: V('b'), lambda: V('e'), lambda: EL('f', FULL, FULL, sub())],
+        ('n', 'l'): [lambda: EL('f', FULL, sub(), FULL)],
+        ('m', 'l'): [lambda: EL('f', sub(), FULL, FULL)],
+        ('n', 'm', 'l'): [lambda: V('f')],
+        ('4',): [lambda: V('c')],
+    }
+    if 'h' in dummies_d: classes[('n1',)] = [lambda: V('h')]
+    weights = {('n',): 3, ('m',): 2, ('l',): 2, ('n', 'm'): 3, ('n', 'l'): 3, ('m', 'l'): 3, ('n', 'm', 'l'): 1, ('4',): 1, ('n1',): 1}
+    pool = [c for c in classes for _ in range(weights[c])]
     kernels, dcalls = [], []
     for ki in range(rng.randint(1, 2)):
         name = 'k%d' % (ki + 1)
-        sig = []
-        for di in range(rng.randint(1, 3)):
-            cls = rng.choice([c for c in classes if classes[c]])
-            if cls == 'n' and rng.random() < 0.3: cls = 'col'      # a column b(:, j) for a rank-1 dummy
-            sig.append(('xyz'[di] + 'abc'[ki], cls))
+        sig = [('xyz'[di] + 'abc'[ki], rng.choice(pool)) for di in range(rng.randint(1, 3))]
         pass_n = rng.random() < 0.3      # the kernel has its own dummy called n, bound to the driver's n
         sd = 's' + 'abc'[ki]
         kargs = [dn for dn, _ in sig] + [sd] + (['n'] if pass_n else [])
         rng.shuffle(kargs)
-        kv = [[dn, 'arr', [[':']] * (2 if cls == 'nm' else 1), 'inout'] for dn, cls in sig] + [[sd, 'scal', None, 'inout']]
+        kv = [[dn, 'arr', [[':']] * len(cls), 'inout'] for dn, cls in sig] + [[sd, 'scal', None, 'inout']]
         if pass_n: kv.append(['n', 'scal', None, 'in'])
         kv += [['i', 'scal', None, None], ['j', 'scal', None, None]]
-        env = {'read': [sd] + (['n'] if pass_n else []), 'write': [sd], 'arrays': {dn: [(1, NB)] * (2 if cls == 'nm' else 1) for dn, cls in sig},
+        env = {'read': [sd] + (['n'] if pass_n else []), 'write': [sd], 'arrays': {dn: [(1, NB)] * len(cls) for dn, cls in sig},
                'warrays': [dn for dn, _ in sig], 'free': [], 'loopvars': ['i', 'j']}
         calls = []
         nested = None
         if rng.random() < 0.4:
             dn, cls = rng.choice(sig)
-            rank = 2 if cls == 'nm' else 1
+            rank = len(cls)
             nested = U('q%d' % (ki + 1), ['zq', 'sq'], [['zq', 'arr', [[':']] * rank, 'inout'], ['sq', 'scal', None, 'inout']],
                        [['store', 'zq', [I(2)] * rank, ADD(EL('zq', *([I(1)] * rank)), V('sq'))], ['assign', 'sq', ADD(V('sq'), EL('zq', *([I(3)] * rank)))]], mod=True)
             calls.append(['call', nested['name'], [V(dn), V(sd)]])
         body = g.stmts(2, rng.randint(2, 4), env, calls)
+        # every element of the leading NB-block of a higher-rank dummy is read once, so that a wrong storage mapping shows
+        for dn, cls in sig:
+            if len(cls) == 2:
+                body.append(['do', 'i', I(1), I(NB), None, [['do', 'j', I(1), I(NB), None,
+                             [['assign', sd, ADD(V(sd), MUL(EL(dn, V('i'), V('j')), ADD(V('i'), MUL(V('j'), I(2)))))]]]]])
         kernels.append(U(name, kargs, kv, body, mod=True))
         if nested: kernels.append(nested)
         for _c in range(rng.choice([1, 1, 2])):
-            act = {}
-            for dn, cls in sig:
-                if cls == 'col': act[dn] = EL(rng.choice(classes['nm']), ['call', ':'], I(rng.randint(1, m0)))
-                else: act[dn] = V(rng.choice(classes[cls]))
+            # no array is passed twice in one call (overlapping actuals that are written are not Fortran; explicit-shape dummies
+            # fed by non-contiguous sections are passed by copy-in/copy-out, so the rewrite would legitimately change such programs)
+            for _try in range(40):
+                act = {dn: rng.choice(classes[cls])() for dn, cls in sig}
+                roots = [a[1] for a in act.values()]
+                if len(set(roots)) == len(roots): break
+            else:
+                return gen_shape(rng)
             act[sd] = V('r'); act['n'] = V('n')
             dcalls.append(['call', name, [act[x] for x in kargs]])
-    env = {'read': ['n', 'm', 'r'], 'write': ['r'], 'arrays': {}, 'warrays': [], 'free': [], 'loopvars': ['i', 'j']}
-    init = []
+    env = {'read': ['n', 'm', 'l', 'r'], 'write': ['r'], 'arrays': {}, 'warrays': [], 'free': [], 'loopvars': ['i', 'j']}
+    init = [['assign', 'jc', I(rng.randint(1, 2))]]
     for x in locals_d:
         if len(vals[x]) == 1: init.append(['do', 'i', I(1), I(vals[x][0]) if x == 'c' else shapes[x][0], None, [['store', x, [V('i')], ADD(V('i'), I(rng.randint(0, 3)))]]])
         else: init.append(['do', 'i', I(1), V('n'), None, [['do', 'j', I(1), V('m'), None, [['store', x, [V('i'), V('j')], ADD(V('i'), MUL(V('j'), I(2)))]]]]])
@@ -1147,12 +1175,12 @@ def gen_shape(rng):
     for x in locals_d:          # make the locals observable
         fin.append(['assign', 'r', ADD(V('r'), EL(x, *([I(2)] * len(vals[x]))))])
     body = init + g.stmts(1, rng.randint(0, 2), env, dcalls) + fin
-    drv = U('drv', ['n', 'm', 'r'] + dummies_d, dvars, body)
+    drv = U('drv', ['n', 'm', 'l', 'r'] + dummies_d, dvars, body)
     mb = {x: [(1, v) for v in vals[x]] for x in dummies_d}
     tree = {'units': [drv] + kernels, 'main_bounds': mb}
     stores = []
     for _s in range(2):
-        st = {'n': n0, 'm': m0, 'r': rng.randint(-3, 5)}
+        st = {'n': n0, 'm': m0, 'l': l0, 'r': rng.randint(-3, 5)}
         st.update({x: arr_store(rng, mb[x]) for x in dummies_d})
         stores.append(store_out(st))
     return {'stream': 'shape', 'kind': 'shape', 'tree': tree, 'opts': {}, 'stores': stores}
@@ -1518,7 +1546,7 @@ class C34(Property):
             'loops, conditionals, intrinsics; calls inside loops/conditionals), one stream per rewrite, each written as Fortran files and processed by the real '
             'transformation through the Scheduler: dedup (same variable / expression for several dummies, aliasing with writes, cascade into nested kernels, '
             'recurse_to_kernels on/off), seq (array elements for explicit-shape / assumed-size dummies of rank 1-2 from rank 1-2 arrays, element to scalar dummy, '
-            'nested), shape (assumed-shape dummies of module procedures; whole arrays, columns b(:,j); shapes n, (n,m), 4, n+1; nested), dt (derived types with '
+            'nested), shape (assumed-shape dummies of rank 1-3 of module procedures; whole arrays and sections of rank-2/3 arrays with the scalar subscripts in every position, f(j,:,:), f(:,j,:), f(:,:,j), f(:,j,k), f(j,:,k), f(j,k,:), b(:,j), b(j,:); sizes n, m, l pairwise different, 4, n+1; nested), dt (derived types with '
             'scalar / rank-1 / rank-2 components, nested one level, used and unused components, whole record or nested component passed on, all_derived_types '
             'on/off), tb (type-bound calls); 2 stores per tree; a case is non-trivial when the rewrite changes at least one call statement; distinct = distinct '
             'transformed tree; plus the 18 finding witnesses (and 2 non-conforming-but-working outputs) as a tie-only stream and crash cases under their own kind')
